@@ -157,6 +157,16 @@ func c04More(c *Ctx) {
 			tests := c.P.guardEdges(fn, G(t.desc, Cmp(t.l, t.op, t.r)))
 			c.Check("G", fnName(fn)+"/a request is dropped as stale only when it is not for "+t.desc, len(tests) == 1, fn.Pos(), len(tests), "the staleness test on this field must be `new "+t.op+" armed`")
 		}
+		// ... in conjunctive normal form of "dropped => older height, or same height and older round, or same round and
+		// a step not later than the armed one": the loop head is reached again without arming only behind these tests
+		c.GuardedBetween(fn, "drop the request (back to the select without arming)",
+			func(in ssa.Instruction) bool {
+				st, ok := in.(*ssa.Store)
+				return ok && re(`^select\[.*\]#2$`).MatchString(pathOf(st.Val)) && strings.HasPrefix(pathOf(st.Addr), "&(select[")
+			}, reset, IfOn(`^\(select\[.*\]#0 == const:0\)$`),
+			G("the request is for the armed height or an older one", Cmp(nw+`Height$`, "<", od+`Height$`), Cmp(nw+`Height$`, "==", od+`Height$`)),
+			G("older height, or the armed round or an older one", Cmp(nw+`Height$`, "<", od+`Height$`), Cmp(nw+`Round$`, "<", od+`Round$`), Cmp(nw+`Round$`, "==", od+`Round$`)),
+			G("older height, older round, or a step not later than the armed one", Cmp(nw+`Height$`, "<", od+`Height$`), Cmp(nw+`Round$`, "<", od+`Round$`), Cmp(nw+`Step$`, "<=", od+`Step$`)))
 		n := len(findInstrs(fn, reset))
 		c.Check("O", fnName(fn)+"/one arming site", n == 1, fn.Pos(), n, "")
 		c.Precedes(fn, "stop the previous timer", CallTo(`^\(\*consensus\.timeoutTicker\)\.stopTimer$`, ""), "arm the timer", reset)
@@ -257,10 +267,23 @@ func c04More(c *Ctx) {
 		})
 		c.Check("L3", fnName(fn)+"/own messages are queued without blocking (select with default, overflow handed to a goroutine)", nb == 1, fn.Pos(), nb, "")
 	}
+	// ---- what we believe a peer has is kept per (height, round): a round change clears the per-round records, otherwise the
+	// vote picker finds nothing the peer "lacks" in the new round and the round's votes are never sent to it
+	if fn := c.Fn("consensus", "PeerState", "ApplyNewRoundStepMessage"); fn != nil {
+		stale := Cmp(`^call:consensus\.CompareHRS\(msg\.Height, msg\.Round, msg\.Step, ps\.PRS\.Height, ps\.PRS\.Round, ps\.PRS\.Step\)$`, "<=", `^const:0$`)
+		for _, f := range []string{"Prevotes", "Precommits", "ProposalBlockParts", "ProposalPOL"} {
+			c.GuardedBetween(fn, "leave the peer's "+f+" record as it was", CallTo(`^consensus\.CompareHRS$`, ""), StoreTo(`^&ps\.PRS\.`+f+`$`), AnyReturn(),
+				G("the message is not newer, or it is for the same round", stale, Cmp(`^ps\.PRS\.Round$`, "==", `^msg\.Round$`)),
+				G("the message is not newer, or it is for the same height", stale, Cmp(`^ps\.PRS\.Height$`, "==", `^msg\.Height$`)))
+		}
+		c.Guarded(fn, "clear the peer's proposal flag", StoreTo(`^&ps\.PRS\.Proposal$`), G("the message is newer", Cmp(`^call:consensus\.CompareHRS\(.*\)$`, ">", `^const:0$`)))
+	}
 	c04Constructors(c)
 	c04InitialHeight(c)
 	// a stale lock must be released by a later polka, including one that completes in the current round
 	lockRules(c)
+	// the commit of the previous height, nil precommits included, must verify in the next height's blocks
+	commitVoteRules(c)
 	c.LockPairing([]string{"consensus", "consensus/types"}, map[string]string{})
 }
 
